@@ -23,6 +23,22 @@
 
 #include "time_zone_fixed.h"
 
+#if defined(GOOGLE_CCTZ_VERIF)
+// Verification hook (off unless a test harness installs it): called at the
+// scheduling points of LoadTimeZone(), never while holding TimeZoneMutex().
+namespace cctz_verif {
+void (*yield_hook)(int point, const char* name) = nullptr;
+}  // namespace cctz_verif
+#define CCTZ_VERIF_YIELD(point, name)                                          \
+  do {                                                                         \
+    if (cctz_verif::yield_hook) cctz_verif::yield_hook(point, (name).c_str()); \
+  } while (0)
+#else
+#define CCTZ_VERIF_YIELD(point, name) \
+  do {                                \
+  } while (0)
+#endif
+
 namespace cctz {
 
 namespace {
@@ -67,6 +83,7 @@ bool time_zone::Impl::LoadTimeZone(const std::string& name, time_zone* tz) {
   }
 
   // Check whether the time zone has already been loaded.
+  CCTZ_VERIF_YIELD(0, name);
   {
     std::lock_guard<std::mutex> lock(TimeZoneMutex());
     if (time_zone_map != nullptr) {
@@ -80,7 +97,9 @@ bool time_zone::Impl::LoadTimeZone(const std::string& name, time_zone* tz) {
 
   // Load the new time zone (outside the map lock, but one load at a time),
   // unless another thread loaded it while we waited for our turn.
+  CCTZ_VERIF_YIELD(1, name);
   std::lock_guard<std::recursive_mutex> load_lock(TimeZoneLoadMutex());
+  CCTZ_VERIF_YIELD(2, name);
   {
     std::lock_guard<std::mutex> lock(TimeZoneMutex());
     if (time_zone_map != nullptr) {
@@ -91,7 +110,9 @@ bool time_zone::Impl::LoadTimeZone(const std::string& name, time_zone* tz) {
       }
     }
   }
+  CCTZ_VERIF_YIELD(3, name);
   std::unique_ptr<const Impl> new_impl(new Impl(name));
+  CCTZ_VERIF_YIELD(4, name);
 
   // Add the new time zone to the map.
   std::lock_guard<std::mutex> lock(TimeZoneMutex());
